@@ -5,7 +5,7 @@ ID = 'C04'
 FMT = 'partial'
 PROGRAMS = rtlib.PROGRAMS
 UNIT_CAP = 300
-BUDGET_S = {'quick': 270, 'thorough': 2400}
+BUDGET_S = {'quick': 600, 'thorough': 1200}      # wall-clock safety caps (exceeding one is reported as inconclusive); typical quick runs take 1-200 s
 SP = ' /\\-|'
 BOUNDS = {
     'quick': {'write_parse': 'text <=3 chars over all scalar values, labels {|,-,space}^(n-1); tags on any character: <=2 per character, each absent or '
